@@ -51,10 +51,11 @@ Record head := mk_head { h_alias : bool; h_bases : list str; h_helpers : list H;
 Definition helper_toks (f : hform) : list tok :=
   TNl :: match f with HBare n => [TStr n] | HCall n args => [TStr n; TParen (join_cs args)] end.
 (** [forms] = the helpers that are written (extension helpers are left out when custom_syntax is off), [secs] = the sections
-    _write_longstring makes of the description (none when the description is empty).  Ends with the `[`. *)
-Definition head_toks (custom alias : bool) (bases : list str) (forms : list hform) (cls : str) (secs : list str) : list tok :=
+    _write_longstring makes of the description (none when the description is empty), [hidden] = there are helpers that are not
+    written (`if self.helpers:` puts the class name on a new line even then).  Ends with the `[`. *)
+Definition head_toks (custom alias : bool) (bases : list str) (forms : list hform) (hidden : bool) (cls : str) (secs : list str) : list tok :=
   match bases with [] => [] | _ => [TStr (if alias && custom then KW_ALIASOF else KW_BASE); TParen (join_cs bases)] end
-  ++ concat (map helper_toks forms) ++ match forms with [] => [] | _ => [TNl] end
+  ++ concat (map helper_toks forms) ++ match forms with [] => if hidden then [TNl] else [] | _ => [TNl] end
   ++ TEq :: TStr cls :: match secs with [] => [] | _ => TColon :: str_toks secs end ++ [TNl; TBrOpen].
 
 (** * reader *)
